@@ -177,6 +177,29 @@ def build_renamed_variant(name):
     return out, n
 
 
+def build_cli():
+    """programs/zstd built from the current tree (no zlib/lzma/lz4: its format set equals the library's), asserts on,
+    statically linked so that a run is a short, mostly file-related system-call sequence. -> (path, rebuilt)"""
+    cc = 'clang'
+    flags = ['-O2', '-g', '-DZSTD_MULTITHREAD', '-DZSTD_LEGACY_SUPPORT=5', '-DDEBUGLEVEL=1', '-DXXH_NAMESPACE=ZSTD_', '-DBACKTRACE_ENABLE=0', '-pthread']
+    inc = ['-I' + os.path.join(REPO, 'lib'), '-I' + os.path.join(REPO, 'lib', 'common'), '-I' + os.path.join(REPO, 'lib', 'compress'),
+           '-I' + os.path.join(REPO, 'lib', 'dictBuilder'), '-I' + os.path.join(REPO, 'lib', 'deprecated'), '-I' + os.path.join(REPO, 'programs')]
+    srcs = lib_sources(['common', 'compress', 'decompress', 'dictBuilder'], legacy=True) + sorted(glob.glob(os.path.join(REPO, 'programs', '*.c')))
+    objs, n = compile_many(cc, srcs, flags + inc, [os.path.join(REPO, 'lib'), os.path.join(REPO, 'programs')], extra_key='cli')
+    key = sha('cli', *objs)
+    os.makedirs(os.path.join(BUILD, 'bin'), exist_ok=True)
+    exe = os.path.join(BUILD, 'bin', 'zstd-cli-' + key)
+    if not os.path.exists(exe):
+        tmp = exe + '.tmp%d' % os.getpid()
+        r = subprocess.run([cc, '-static', '-pthread', '-o', tmp] + objs, capture_output=True, text=True)
+        if r.returncode:
+            r = subprocess.run([cc, '-pthread', '-o', tmp] + objs, capture_output=True, text=True)
+        if r.returncode:
+            sys.stderr.write('CLI LINK FAILED\n' + r.stderr[-3000:]); raise SystemExit(2)
+        os.replace(tmp, exe)
+    return exe, n
+
+
 if __name__ == '__main__':
     for v in sys.argv[1:]:
         a, n = build_variant(v)
